@@ -38,6 +38,10 @@ enum Fault {
     CancelCommit { k: usize, sets: Vec<(usize, i64)> },
     #[serde(rename = "panic")]
     Panic { n: usize, root: usize },
+    /// change the outside world, call refresh(), drop it after k polls, then
+    /// commit the session explicitly
+    #[serde(rename = "cancel_refresh")]
+    CancelRefresh { k: usize, world: Vec<(usize, i64)> },
 }
 
 #[derive(serde::Deserialize, serde::Serialize, Clone)]
@@ -118,6 +122,44 @@ async fn run_fault<C: qbice::config::Config>(d: &mut Driver<C>, fault: &Fault) -
                 ctx.rec.push(Event::Cancel { n: 0, polls: *k });
             }
             drop(fut);
+            done_after
+        }
+        Fault::CancelRefresh { k, world } => {
+            d.drop_tracked();
+            let mut s = d.engine().input_session().await;
+            ctx.rec.push(Event::Begin);
+            for (n, v) in world {
+                ctx.world[n - 1].store(*v, Ordering::SeqCst);
+                ctx.rec.push(Event::World { n: *n, v: *v });
+            }
+            // external executors take a few polls, so that refresh() is
+            // suspended at its join while they are still running
+            ctx.exec_yields.store(3, Ordering::SeqCst);
+            ctx.rec.push(Event::RefreshStart);
+            let mut done_after = None;
+            {
+                let mut fut = Box::pin(s.refresh::<vh::dsl::Ex>());
+                for i in 0..*k {
+                    match futures::poll!(fut.as_mut()) {
+                        Poll::Ready(()) => {
+                            done_after = Some(i + 1);
+                            break;
+                        }
+                        Poll::Pending => tokio::task::yield_now().await,
+                    }
+                }
+                if done_after.is_none() {
+                    ctx.rec.push(Event::Cancel { n: 0, polls: *k });
+                }
+                drop(fut);
+            }
+            // the explicit commit follows at once (the detached remainder of
+            // refresh may still be running)
+            s.commit().await;
+            ctx.exec_yields.store(0, Ordering::SeqCst);
+            // logged after the call: every external executor run of the
+            // refresh is in the log before it
+            ctx.rec.push(Event::Commit);
             done_after
         }
         Fault::Panic { n, root } => {
@@ -253,7 +295,7 @@ fn main() {
             let mut r = StdRng::seed_from_u64(s);
             let prog = gen_program(
                 s,
-                GenCfg { n_min: 5, n_max: 10, m: 3, externals: false, cyclic: false, groups: true, fw: nofw == 0 },
+                GenCfg { n_min: 5, n_max: 10, m: 3, externals: arg_u64(&a, "ext", 0) == 1, cyclic: false, groups: true, fw: nofw == 0 },
             );
             // prefix: initial session, a few queries, a second session that changes inputs
             let mut pre = vec![Action::Begin];
@@ -315,6 +357,30 @@ fn main() {
                     break;
                 }
                 k += 1;
+            }
+            // cancel refresh (only meaningful with external inputs that were sampled)
+            if !prog.externals().is_empty() {
+                let mut k = 0;
+                loop {
+                    let world: Vec<(usize, i64)> =
+                        prog.externals().iter().map(|e| (e + 1, (k as i64 + 1) % prog.m)).collect();
+                    let mut pre2 = pre.clone();
+                    for i in 0..prog.n() {
+                        pre2.push(Action::Query { t: 0, n: i + 1 });
+                    }
+                    let c = Case {
+                        prog: prog.clone(),
+                        actions: pre2,
+                        fault: Fault::CancelRefresh { k, world },
+                        cfg: cfg.clone(),
+                    };
+                    let done = run(&c, &mut all);
+                    cases_out.push(c);
+                    if done.is_some() || k >= maxk {
+                        break;
+                    }
+                    k += 1;
+                }
             }
             // every executor as the panicking one, queried through the last node
             for n in &execs {
